@@ -138,6 +138,9 @@ EXTRA = [
     ("srp", "python", "class-at-max-loc", {"mod.py": _class_at_limit()}, {"srp": {"max_methods": 2, "max_loc": 6, "check_keywords": False}}),
     ("magic-numbers", "python", "open-block-at-eof", {"mod.py": "def first():\n    return 3601\n\n\n# thailint: ignore-start magic-numbers\ndef second():\n    return 3602\n"}, {}),
     ("unwrap-abuse", "rust", "test-attribute", {"lib.rs": "fn production(opt: Option<u32>) -> u32 {\n    opt.unwrap()\n}\n\n#[test]\nfn case_one() {\n    let v = load().unwrap();\n    check(v);\n}\n\n#[cfg(test)]\nmod tests {\n    fn helper() -> u32 {\n        load().unwrap()\n    }\n}\n"}, {}),
+    ("cqs", "typescript", "fluent-exempt-next-to-violation", {"mod.ts": "class Builder {\n  private parts: string[] = [];\n\n  add(part: string) {\n    const size = measure(part);\n    this.parts.push(part);\n    record(size);\n    return this;\n  }\n}\n\nfunction processAndSave(data: string) {\n  const cleaned = normalise(data);\n  store(cleaned);\n  return cleaned;\n}\n"}, {}),
+    ("cqs", "python", "fluent-exempt-next-to-violation", {"mod.py": "class Builder:\n    def add(self, part):\n        size = measure(part)\n        self.parts.append(part)\n        record(size)\n        return self\n\n\ndef process_and_save(data):\n    cleaned = normalise(data)\n    store(cleaned)\n    return cleaned\n"}, {}),
+    ("clone-abuse", "rust", "format-placeholder-with-similar-name", {"lib.rs": "fn report(s: String, size: usize) -> usize {\n    let copy = s.clone();\n    consume(copy);\n    println!(\"{size} bytes\");\n    size\n}\n\nfn totals(items: Vec<String>, y: String) {\n    for it in items.iter() {\n        consume(y.clone());\n    }\n    touch(&y);\n}\n"}, {}, [("s", "input"), ("y", "label")]),
     ("improper-logging", "python", "open-block-at-eof", {"mod.py": "def first(v):\n    print(v)\n\n\n# thailint: ignore-start improper-logging\ndef second(v):\n    print(v)\n"}, {}),
 ]
 
@@ -146,7 +149,7 @@ def _setups():
     out = []
     for name, lang, fs, cfg in load.all_triggers(skip=("file-placement",)):
         cmd = load.primary_command(name)
-        if cmd:
+        if cmd or name == "cqs":
             out.append((name, lang))
     return out
 
@@ -162,6 +165,16 @@ def _run(cmd, prefix, files, cfg):
     if cfg:
         fs[".thailint.yaml"] = yaml_dump(cfg)
     root = project(fs)
+    if cmd is None:
+        # a linter without a command of its own (cqs): all rules through the library
+        from src.api import Linter  # noqa: PLC0415
+        from mc.core import env  # noqa: PLC0415
+
+        env.reset_caches()
+        with obs.cwd(root):
+            vs = [t for t in obs.norm([obs.vdict(v) for v in Linter(project_root=root).lint(root)], root, root) if t[0].startswith(prefix)]
+        remove(root)
+        return vs, {"exit_code": 1 if vs else 0, "stderr": ""}
     r = obs.cli_json([cmd, "."], root)
     vs = None if r["violations"] is None else [t for t in obs.norm(r["violations"], root, root) if t[0].startswith(prefix)]
     remove(root)
@@ -173,7 +186,7 @@ def run_item(item) -> Acc:
     name, lang = item["linter"], item["lang"]
     d = load.linters()[name]
     cmd = load.primary_command(name)
-    prefix = load.COMMAND_PREFIX[cmd][0]
+    prefix = load.COMMAND_PREFIX[cmd][0] if cmd else (d.get("rule_prefix") or name)
     files = dict(load.trigger_files(name, lang))
     cfg = load.trigger_config(name, lang)
     if item.get("extra") is not None:
@@ -192,7 +205,7 @@ def run_item(item) -> Acc:
     nl = len(lines)
     bad = _inside_multiline(lang, text)
     hdr = _header_end(lang, text) if name in HEADER_SENSITIVE else 0
-    cross = name in CROSS
+    cross = name in CROSS or name == "cqs"  # their messages quote line numbers
     cm = CM[lang]
     fails: dict = {}
 
@@ -201,10 +214,12 @@ def run_item(item) -> Acc:
             return (t[0], t[1], t[2])
         return (t[0], t[1], t[2], t[3], t[4]) if with_col else (t[0], t[1], t[2], t[4])
 
-    def check(kind, pos, new_text, shift, with_col=True):
+    def check(kind, pos, new_text, shift, with_col=True, msg_fix=None):
         nf = dict(files)
         nf[target] = new_text
         got, r = _run(cmd, prefix, nf, cfg)
+        if msg_fix and got is not None:
+            got = [(t[0], t[1], t[2], t[3], msg_fix(t[4])) for t in got]
         acc.case()
         acc.edge()
         acc.valid()
@@ -274,6 +289,11 @@ def run_item(item) -> Acc:
         for ident in cand:
             nt = re.sub(rf"\b{ident}\b", ident + "_rn", text)
             check("rename-local", ident, nt, lambda x: x, with_col=False)
+    if item.get("extra") is not None and len(EXTRA[item["extra"]]) > 5:
+        # explicit renames of a supplementary program (short names the generic picker skips)
+        for old_name, new_name in EXTRA[item["extra"]][5]:
+            nt = re.sub(rf"(?<![\w{{]){old_name}\b", new_name, text)
+            check("rename-local", f"{old_name}->{new_name}", nt, lambda x: x, with_col=False, msg_fix=lambda m, a=old_name, b=new_name: re.sub(rf"\b{b}\b", a, m))
     if item["pairs"] and nl <= 25:
         ok = [b for b in range(1, nl + 2) if b not in bad and b > hdr and not (name in HEADER_SENSITIVE and b == 1)]
         for i in ok[::2]:
